@@ -6,6 +6,37 @@ import os
 ROOT = os.path.dirname(os.path.dirname(os.path.abspath(__file__)))
 
 CHECKS = {
+    'C02': ('fault_enumeration', '§7 C02',
+            'KevoStore is model-checked to implement the client-level durability contract KevoDurable (what reached the OS is always a '
+            'prefix of the issue order; with synchronous logging it holds every acknowledged write; a batch is one log element), including '
+            'Die between any two sub-steps, Recover and a second Die. The real engine is then stopped (os.Exit without cleanup, in a child '
+            'process) at EVERY (hook site, hit) of TLC-generated programs, reopened, observed, written to again, reopened and observed again; '
+            'torn variants cut the write in flight; gated variants stop inside the log rotation while the client keeps writing; each outcome '
+            'is a trace that TLC validates against KevoDurable - it has to find a surviving prefix that explains every observation.',
+            'process death not power failure; stop points = hook sites; SyncBatch held to the SyncNone contract; bounded model',
+            'TLC refinement MC + crash enumeration at hook sites + TLC trace validation (prefix search)'),
+    'C03': ('model_checking', '§7 C03',
+            'KevoTxn (CommitIsOneStep, RollbackLeavesNoTrace) and KevoStore=>KevoDurable model-checked; bound by gated interleavings (committer '
+            'parked at every hook site of its commit while all keys are read from outside and a read-only transaction is requested; histories '
+            'validated by TLC against TRACE_Txn), commits made to fail by a parked rotation, free-running histories with caller buffer reuse, '
+            'and crash enumeration of batch-heavy programs.',
+            'interleavings at hook granularity; waiting = not returned within 250 ms; crash assumptions as C02',
+            'TLC MC + gated interleavings/recorded histories validated by TLC + crash enumeration'),
+    'C04': ('model_checking', '§7 C04',
+            'KevoTxn model-checked exhaustively (Mutex, SnapshotStable, CommitIsOneStep, liveness EveryTxEnds); recorded histories of 3-6 '
+            'concurrent clients (every read with its result, grant/apply/unlock logged at their linearisation points inside the hooks) are '
+            'validated by TLC: each history must be a behaviour of KevoTxn, i.e. every read = state at grant + own writes and the final state '
+            'is the result of the commits in lock order. Schedules are sampled with seeded yield perturbation; each history is decided exactly.',
+            'schedules sampled; direct writes excluded as the property says; pending-writer rule not demanded in validation',
+            'TLC MC (safety+liveness) + TLC trace validation of recorded concurrent histories'),
+    'C12': ('model_checking', '§7 C12',
+            'KevoStore with the compactor (strategy selections and range compaction closed under overlap, tombstone kept while an older table '
+            'outside the compaction may hold the key) is model-checked: DirView (lookup through the directory in recency order = abstract map) '
+            'and DeepLevelsDisjoint. TLC-generated behaviours with flush/compaction (cycle, full range, sub-range)/retire/reopen are replayed: '
+            'every key read back after every call - after retire+reopen from table files only - and around each compaction the merged '
+            'newest-wins view of the table directory (real readers, recency as the spec defines it) must be unchanged and files sorted.',
+            'bounded constants; tombstone retention by age not exercisable; background flush between directory snapshots voids that comparison',
+            'TLC MC + replay with directory-view oracle'),
     'C01': ('model_checking', '§7 C01',
             'KevoStore.tla is model-checked exhaustively for small constants (ReadLatest, DirView: lookup through active/immutable/'
             'retained memtables and table files equals the abstract map whatever flush, rotation, compaction, retirement and reopen '
